@@ -1319,7 +1319,8 @@ class _Desugar(ast.NodeTransformer):
                 out.extend(rep)
                 self.count += 1
         out = self._search_then_use(self._first_match(self._walrus(
-            self._unroll(self._accumulate(self._devirtualise(out))))))
+            self._unroll(self._table_comprehension(
+                self._accumulate(self._devirtualise(out)))))))
         out = self._conditional_assign(self._match_literals(out))
         return self._dict_dispatch(out)
 
@@ -1673,6 +1674,60 @@ class _Desugar(ast.NodeTransformer):
                     test=test, body=body, orelse=chain), use)]
             out = out[:i] + between + chain + out[j + 1:]
             self.count += 1
+        return out
+
+    def _table_comprehension(self, stmts):
+        """x = {K: V for T in <literal table> if C}   ->
+           x = {}; for T in <literal table>: if C: x[K] = V
+        (likewise a list with append): a comprehension over a fixed handful
+        of rows is the sequence of its rows; the loop is then unrolled."""
+        out = []
+        for st in stmts:
+            v = st.value if isinstance(st, ast.Assign) and \
+                len(st.targets) == 1 and \
+                isinstance(st.targets[0], ast.Name) else None
+            if isinstance(v, (ast.DictComp, ast.ListComp)) and \
+                    len(v.generators) == 1 and \
+                    not v.generators[0].is_async and \
+                    isinstance(v.generators[0].iter, (ast.Tuple, ast.List)) \
+                    and 1 <= len(v.generators[0].iter.elts) <= 6 and \
+                    all(isinstance(r, (ast.Tuple, ast.Constant))
+                        for r in v.generators[0].iter.elts):
+                g = v.generators[0]
+                name = st.targets[0].id
+                import copy as _c
+
+                def loc(n):
+                    return ast.copy_location(n, st)
+                if isinstance(v, ast.DictComp):
+                    init = ast.Dict(keys=[], values=[])
+                    put = loc(ast.Assign(targets=[ast.Subscript(
+                        value=ast.Name(id=name, ctx=ast.Load()),
+                        slice=v.key, ctx=ast.Store())], value=v.value,
+                        lineno=st.lineno))
+                else:
+                    init = ast.List(elts=[], ctx=ast.Load())
+                    put = loc(ast.Expr(value=ast.Call(func=ast.Attribute(
+                        value=ast.Name(id=name, ctx=ast.Load()),
+                        attr='append', ctx=ast.Load()), args=[v.elt],
+                        keywords=[])))
+                body = [put]
+                if g.ifs:
+                    test = g.ifs[0] if len(g.ifs) == 1 else ast.BoolOp(
+                        op=ast.And(), values=list(g.ifs))
+                    body = [loc(ast.If(test=test, body=[put], orelse=[]))]
+                tgt = _c.deepcopy(g.target)
+                for n in ast.walk(tgt):
+                    if isinstance(n, (ast.Name, ast.Tuple, ast.List)):
+                        n.ctx = ast.Store()
+                out.append(loc(ast.Assign(
+                    targets=[ast.Name(id=name, ctx=ast.Store())],
+                    value=init, lineno=st.lineno)))
+                out.append(loc(ast.For(target=tgt, iter=g.iter, body=body,
+                                       orelse=[], lineno=st.lineno)))
+                self.count += 1
+                continue
+            out.append(st)
         return out
 
     def _search_then_use(self, stmts):
@@ -2681,6 +2736,23 @@ def inline_new_constants(trees, known):
                 return node
         used = set()
         T().visit(tree)
+        # a definition nothing reads any more goes away (so that the
+        # functions it names are no longer "used as values")
+        still = {x.id for x in ast.walk(tree) if isinstance(x, ast.Name) and
+                 isinstance(x.ctx, ast.Load)}
+        exported = set()
+        for st in tree.body:
+            if isinstance(st, ast.Assign) and any(
+                    isinstance(t, ast.Name) and t.id == '__all__'
+                    for t in st.targets):
+                exported |= {c.value for c in ast.walk(st.value)
+                             if isinstance(c, ast.Constant)}
+        tree.body = [st for st in tree.body if not (
+            isinstance(st, ast.Assign) and len(st.targets) == 1 and
+            isinstance(st.targets[0], ast.Name) and
+            st.targets[0].id in used and st.targets[0].id not in still and
+            st.targets[0].id not in exported and
+            st.targets[0].id.startswith('_'))]
         ast.fix_missing_locations(tree)
         for n in sorted(used):
             done.append(('const:%s.%s' % (mod, n), 1, False))
